@@ -383,6 +383,10 @@ func checkC06(ctx *Ctx) *Result {
 		}
 		r.check(bad == "" && len(ps) > 0, "R6.3", "Tree.Elems traverses from the root", p.Pos(te.Pos()), bad, len(ps))
 	}
+	// Config() omits what the request path ignores: the normal form drops
+	// `Authorization` next to `*` with credentials because the request path
+	// answers `*,authorization` only without credentials
+	r.share(checkC16(ctx), map[string]string{"R16.2": "successful debug-off preflights carry only constants and request-supplied tokens; `*,authorization` only under asterisk ∧ allowAuthorization ∧ ¬credentialed — the case Config() keeps `Authorization` for"}, nil)
 	return r
 }
 
